@@ -196,6 +196,10 @@ func c16Check(x *core.Ctx, c *core.Case) {
 		src := &ast.Source{Name: "huge.graphql", Input: text}
 		x.Count("huge_valid_documents")
 		x.Nontrivial()
+		if u := c16Parse(c.Get("grammar"), src, 0, false); u.err != nil {
+			x.Violate("exact:unlimited-entry-fails:"+c.Get("grammar"), fmt.Sprintf("T=%d, no limit -> %s", n, errText(u.err)), "parses: a valid document")
+			return
+		}
 		for _, L := range []int{n, n + 1, math.MaxInt32, 0} {
 			if a := c16Parse(c.Get("grammar"), src, L, true); a.err != nil {
 				x.Violate("exact:fails-at-or-above-T:"+c.Get("grammar"), fmt.Sprintf("T=%d limit %d -> %s", n, L, errText(a.err)), "parses: the document has exactly T tokens")
@@ -425,6 +429,12 @@ func c16Multi(x *core.Ctx, c *core.Case) {
 			maxT = len(rr.Toks)
 		}
 		srcs = append(srcs, &ast.Source{Name: fmt.Sprintf("part%d.graphql", j), Input: t, BuiltIn: j == 0})
+	}
+	if n >= 2 && core.HashString(c.Get("src0"))%3 == 0 {
+		// the same source object listed twice (a loader that prepends a shared source the caller also passes): both entry
+		// points see it twice
+		srcs = append(srcs, srcs[0])
+		x.Count("multi_source_cases_with_repeated_source")
 	}
 	x.Count("multi_source_cases")
 	x.Nontrivial()
